@@ -1,0 +1,37 @@
+//go:build verif
+
+// Contracts for package confparse, checked by /verif (bfvc). Comment-only.
+package confparse
+
+// ---- C38: configuration parsers ----
+// An empty string is "no peer ID"; anything else must be the base58 text of a well-formed identity
+// multihash, which is returned.
+//@ func ParsePeerID
+//@   ensures peerID == "" ==> ret1 == nil && ret0 == ""
+//@   ensures peerID != "" && ret1 == nil ==> b58ok(peerID) && ret0 == b58dec(peerID) && mhWellFormed(ret0) && uvarintVal(ret0) == 0
+//@ func ValidatePeerID
+//@   ensures ret == nil ==> id != "" && b58ok(id) && mhWellFormed(b58dec(id))
+
+// A protocol ID is accepted exactly when it is non-empty valid UTF-8 (or empty, where allowed), and
+// is returned unchanged.
+//@ func ParseProtocolID
+//@   ensures (ret1 == nil) <==> ((allowEmpty && protocolID == "") || (protocolID != "" && utf8Valid(protocolID)))
+//@   ensures ret1 == nil ==> ret0 == protocolID
+//@ func ValidateProtocolID
+//@   ensures (ret == nil) <==> ((allowEmpty && id == "") || (id != "" && utf8Valid(id)))
+//@ func ParseProtocolIDs
+//@   loop 1 invariant len(pids) == rangeindex + 1 && rangeindex < len(ids) && forall k int trigger pids[k] :: 0 <= k && k < len(pids) ==> pids[k] == ids[k] && ((allowEmpty && ids[k] == "") || (ids[k] != "" && utf8Valid(ids[k])))
+//@   ensures ret1 == nil ==> len(ret0) == len(ids) && forall k int trigger ret0[k] :: 0 <= k && k < len(ids) ==> ret0[k] == ids[k] && ((allowEmpty && ids[k] == "") || (ids[k] != "" && utf8Valid(ids[k])))
+
+// A timestamp is written in the layout that keeps its nanoseconds (time.RFC3339Nano), the only
+// RFC 3339 layout of package time that is lossless: what ParseTimestamp reads back is the value written.
+//@ func MarshalTimestamp
+//@   assert at call (Time).Format: arg0 == "2006-01-02T15:04:05.999999999Z07:00"
+
+// An empty string is "no value" for durations and URLs; everything else is the library's parser.
+//@ func ParseDuration
+//@   ensures dur == "" ==> ret0 == 0 && ret1 == nil
+//@ func ParseURL
+//@   ensures uri == "" ==> ret0 == nil && ret1 == nil
+//@ func ValidateURL
+//@   ensures uri == "" ==> ((ret == nil) <==> allowEmpty)
